@@ -556,3 +556,29 @@ pub fn contract_monitor(cx: &mut SeqCtx, i: usize, op: &Op, before: &World, want
     }
     false
 }
+
+
+/// Contract monitor restricted to the concern of one property: `relevant(op)` says whether a
+/// deviating *result* of this op is the property's business, `field_ok(field)` whether a
+/// deviating snapshot field is. Any other deviation ends the run silently (the model is out of
+/// sync; the deviation belongs to C01).
+pub fn scoped_monitor(cx: &mut SeqCtx, i: usize, op: &Op, before: &World, want: &Want, got: &Res, snaps: &[Snap], relevant: &dyn Fn(&Op) -> bool, field_ok: &dyn Fn(&str) -> bool) -> bool {
+    let n0 = cx.out.violations.len();
+    let stop = contract_monitor(cx, i, op, before, want, got, snaps);
+    if cx.out.violations.len() > n0 {
+        let v = cx.out.violations.last().unwrap().clone();
+        let is_snap = v.key.contains("|snap|");
+        let keep = if is_snap {
+            let field = v.key.rsplit('|').next().unwrap_or("").split('@').next().unwrap_or("").to_string();
+            field_ok(&field) && (i == 0 || relevant(op))
+        } else {
+            v.key.contains("observer-panic") || relevant(op)
+        };
+        if !keep {
+            cx.out.violations.pop();
+            cx.out.count("run_ended_by_deviation_outside_this_property");
+            return true;
+        }
+    }
+    stop
+}
